@@ -280,4 +280,50 @@ def cliHint (path : List UInt8) : Option (List UInt8) := sanitizeFilenameHint (c
 /-- filename hint the daemon derives from the PATH field it received -/
 def daemonHint (path : List UInt8) : Option (List UInt8) := sanitizeFilenameHint (wireValue (cliWirePath path))
 
+/-! ## candidate streams of the real solvers: `std::mt19937_64`
+
+Not used by any theorem (the theorems quantify over every stream); the driver needs it to predict
+the exact nonce the implementation returns.  ISO C++ [rand.eng.mers] with the `mt19937_64`
+parameters (w=64, n=312, m=156, r=31, a=0xB5026F5AA96619E9, u=29, d=0x5555555555555555, s=17,
+b=0x71D67FFFEDA60000, t=37, c=0xFFF7EEE000000000, l=43, f=6364136223846793005). -/
+
+structure Mt64 where
+  mt : Array UInt64
+  idx : Nat
+deriving Inhabited
+
+namespace Mt64
+
+def seed (s : Nat) : Mt64 := Id.run do
+  let mut a : Array UInt64 := Array.replicate 312 0
+  let mut prev : UInt64 := UInt64.ofNat s
+  a := a.set! 0 prev
+  for i in [1:312] do
+    prev := (6364136223846793005 : UInt64) * (prev ^^^ (prev >>> 62)) + UInt64.ofNat i
+    a := a.set! i prev
+  return ⟨a, 312⟩
+
+def twist (a : Array UInt64) : Array UInt64 := Id.run do
+  let mut a := a
+  for i in [0:312] do
+    let x := (a[i]! &&& 0xFFFFFFFF80000000) ||| (a[(i + 1) % 312]! &&& 0x7FFFFFFF)
+    let xA := if x &&& 1 != 0 then (x >>> 1) ^^^ 0xB5026F5AA96619E9 else x >>> 1
+    a := a.set! i (a[(i + 156) % 312]! ^^^ xA)
+  return a
+
+def next (g : Mt64) : Nat × Mt64 :=
+  let g := if g.idx ≥ 312 then { mt := twist g.mt, idx := 0 } else g
+  let y := g.mt[g.idx]!
+  let y := y ^^^ ((y >>> 29) &&& 0x5555555555555555)
+  let y := y ^^^ ((y <<< 17) &&& 0x71D67FFFEDA60000)
+  let y := y ^^^ ((y <<< 37) &&& 0xFFF7EEE000000000)
+  let y := y ^^^ (y >>> 43)
+  (y.toNat, { g with idx := g.idx + 1 })
+
+/-- first draw of `std::mt19937_64(seed)`; libstdc++'s `uniform_int_distribution<uint64_t>(0, 2^64−1)`
+    returns the generator output unchanged when the ranges coincide -/
+def firstDraw (s : Nat) : Nat := (next (seed s)).1
+
+end Mt64
+
 end EphVerif.Pow
